@@ -353,12 +353,16 @@ func bbServer(c *vf.Ctx, bin string, w int) {
 		for qi, q := range qs {
 			where := bbWhere(q.cond, q.tb)
 			// model
-			match := make([]bool, n)
+			match := make([]bool, n)    // the model says the row matches
+			ruledOut := make([]bool, n) // the model says the row certainly does not match
 			nMatch, certain := 0, evaluable(q.cond)
 			for i, row := range t.Rows {
-				if evalRow(&t, row.V, row.T, q.cond, q.tb) == vTrue {
+				switch evalRow(&t, row.V, row.T, q.cond, q.tb) {
+				case vTrue:
 					match[i] = true
 					nMatch++
+				case vFalse:
+					ruledOut[i] = true
 				}
 			}
 			twin, ec := bbIDs(s, "t_twin", where)
@@ -398,9 +402,59 @@ func bbServer(c *vf.Ctx, bin string, w int) {
 					c.Distinct("black-box/variant-refusal", v.kind+": "+ec)
 					continue
 				}
-				var missing []int64
-				for id := range twin {
-					if got[id] == 0 {
+				// rows the full scan returns and the model does not rule out (a twin that over-returns,
+				// e.g. ignores a time bound under OR, puts no obligation on the index)
+				missingOf := func(got map[int64]int) (missing []int64, overReturned int) {
+					for id := range twin {
+						if got[id] != 0 {
+							continue
+						}
+						if id >= 0 && id < int64(n) && ruledOut[id] {
+							overReturned++
+							continue
+						}
+						missing = append(missing, id)
+					}
+					return
+				}
+				missing, over := missingOf(got)
+				if over > 0 {
+					c.Count("NON-GATING:black-box/twin-returns-rows-the-model-rules-out-and-the-variant-does-not", 1)
+				}
+				if len(missing) > 0 {
+					// a pruning decision is deterministic: ask again; only rows missing every time count
+					persistent := map[int64]bool{}
+					for _, id := range missing {
+						persistent[id] = true
+					}
+					for k := 0; k < 3 && len(persistent) > 0; k++ {
+						again, ec2 := bbIDs(s, v.name, where)
+						c.Eval(1)
+						if ec2 != "" {
+							continue
+						}
+						m2, _ := missingOf(again)
+						in2 := map[int64]bool{}
+						for _, id := range m2 {
+							in2[id] = true
+						}
+						for id := range persistent {
+							if !in2[id] {
+								delete(persistent, id)
+							}
+						}
+					}
+					if len(persistent) < len(missing) {
+						c.Count("NON-GATING:black-box/rows-missing-once-but-returned-when-the-same-query-is-repeated", 1)
+						note(c, "black-box/unrepeatable-row-loss", v.kind)
+						if c.DistinctCount("black-box/unrepeatable-row-loss-sample") < 3 {
+							c.Distinct("black-box/unrepeatable-row-loss-sample", where)
+							c.Sample(map[string]any{"non_gating_unrepeatable_row_loss": "SELECT id FROM " + v.name + " WHERE " + where,
+								"missing_first_time": len(missing), "missing_every_time": len(persistent), "twin_rows": len(twin)})
+						}
+					}
+					missing = missing[:0]
+					for id := range persistent {
 						missing = append(missing, id)
 					}
 				}
